@@ -151,7 +151,12 @@ func newSimWorld(sc *Scenario) *simWorld {
 		for _, ms := range sc.Rig.ModuleServices {
 			spec := ms
 			_ = k.RegisterModuleService(spec.Module, &st.ModuleService{ServiceName: spec.Service, Provider: spec.Provider,
-				ReuquestService: func(ctx sdk.Context, input string) (string, string) { return spec.Result, spec.Output }})
+				ReuquestService: func(ctx sdk.Context, input string) (string, string) {
+					if spec.CreatesContext {
+						msvcCreatesContext(ctx, k)
+					}
+					return spec.Result, spec.Output
+				}})
 		}
 	}
 	k := app.ServiceKeeper
@@ -220,6 +225,9 @@ func (w *simWorld) exec(a Action) (outcome string) {
 		cctx, write := w.ctx.CacheContext()
 		cctx = cctx.WithValue(st.TxHash, a.TxHash).WithValue(st.MsgIndex, int64(0)).WithValue(subspaceKey{}, w.app.GetSubspace(st.ModuleName))
 		if err := a.Mod(cctx, w.mk); err != nil {
+			if a.Carry {
+				write()
+			}
 			return "error"
 		}
 		write()
